@@ -69,15 +69,14 @@ Proof.
       + apply tpaths_in. exists c, (Node ch), p'. split; [exact Hin | split; [reflexivity | exact Hp]].
       + cbn [pcompat]. now rewrite Hc, Cp. }
   destruct (aget a k) as [v|] eqn:Ak.
-  - destruct (tget l (CVal v)) as [t|] eqn:G.
-    + apply (D (CVal v) t res (tget_in _ _ _ G)); [apply Nat.eqb_refl | exact H].
+  - apply in_app_iff in H as [H|H].
+    + destruct (tget l (CVal v)) as [t|] eqn:G; [|destruct H].
+      apply (D (CVal v) t res (tget_in _ _ _ G)); [apply Nat.eqb_refl | exact H].
     + destruct (tget l CAll) as [w|] eqn:GA; [|destruct H].
       apply (D CAll w res (tget_in _ _ _ GA)); [reflexivity | exact H].
-  - destruct (tget l CAll) as [w|] eqn:GA.
-    + apply (D CAll w res (tget_in _ _ _ GA)); [reflexivity | exact H].
-    + apply in_flat_map in H as ([c t] & Hin & H). cbn [fst snd] in H. destruct c as [|v].
-      * apply (D CAll t res Hin); [reflexivity | exact H].
-      * apply (D (CVal v) t (aset res k v) Hin); [reflexivity | exact H].
+  - apply in_flat_map in H as ([c t] & Hin & H). cbn [fst snd] in H. destruct c as [|v].
+    + apply (D CAll t res Hin); [reflexivity | exact H].
+    + apply (D (CVal v) t (aset res k v) Hin); [reflexivity | exact H].
 Qed.
 
 (* ---------- well-formed indexes: at every level a key occurs once ---------- *)
@@ -331,35 +330,30 @@ Fixpoint pcompat_strict (ks : list key) (p : list ckey) (a : assignment) : bool 
   | _, _ => false
   end.
 
-Lemma retrieve_at_complete ks a : forall l res p o, WF l -> Unmixed l -> Shaped ks l -> In (p, o) (tpaths l) ->
+Lemma retrieve_at_complete ks a : forall l res p o, WF l -> Shaped ks l -> In (p, o) (tpaths l) ->
   pcompat_strict ks p a = true -> exists r, In (r, o) (retrieve_at ks a l res).
 Proof.
-  induction ks as [|k ks IH]; intros l res p o W U S H C.
+  induction ks as [|k ks IH]; intros l res p o W S H C.
   - cbn in S. subst l. destruct H.
   - apply tpaths_in in H as (c & t & p' & Hin & -> & Hp). cbn [pcompat_strict] in C. apply andb_prop in C as [Cc Cp].
-    inversion W as [? N Hch]; subst. inversion U as [? Mix Uch]; subst.
+    inversion W as [? N Hch]; subst.
     assert (D : forall res', exists r, In (r, o) (match t with Leaf o' => [(res', o')] | Node ch => retrieve_at ks a ch res' end)).
     { intros res'. destruct ks as [|k2 ks'].
       - cbn [Shaped] in S. destruct (S c t Hin) as (o' & ->). cbn [tpaths_t] in Hp. destruct Hp as [Hp|[]]. injection Hp as _ <-.
         eexists. now left.
       - cbn [Shaped] in S. destruct (S c t Hin) as (ch & -> & Sch).
-        apply (IH ch res' p' o (Hch c ch Hin) (Uch c ch Hin) Sch Hp Cp). }
+        apply (IH ch res' p' o (Hch c ch Hin) Sch Hp Cp). }
     cbn [retrieve_at]. destruct l as [|ct0 l0] eqn:El; [destruct Hin|]. rewrite <- El in *. clear El ct0 l0.
     destruct (aget a k) as [v|] eqn:Ak.
     + destruct c as [|v'].
-      * (* the path goes through the wildcard: the level holds wildcards only *)
-        destruct Mix as [Mix|Mix]; [|destruct (in_conc_is_val _ _ _ Mix Hin) as (? & ?); discriminate].
-        rewrite (tget_none_all l v Mix). destruct (tget l CAll) as [w|] eqn:G; [|exfalso; now apply (tget_found l CAll t Hin)].
-        rewrite (tget_unique l CAll t w N Hin G). apply D.
+      * (* the path goes through the wildcard branch: the second half *)
+        destruct (tget l CAll) as [w|] eqn:G; [|exfalso; now apply (tget_found l CAll t Hin)].
+        rewrite (tget_unique l CAll t w N Hin G). destruct (D res) as (r & Hr). exists r. apply in_app_iff. now right.
       * apply Nat.eqb_eq in Cc. subst v'. destruct (tget l (CVal v)) as [w|] eqn:G; [|exfalso; now apply (tget_found l (CVal v) t Hin)].
-        rewrite (tget_unique l (CVal v) t w N Hin G). apply D.
-    + destruct (tget l CAll) as [w|] eqn:G.
-      * (* a wildcard at this level: the level holds wildcards only, the path goes through it *)
-        destruct Mix as [Mix|Mix]; [|rewrite (tget_none_conc l Mix) in G; discriminate].
-        pose proof (in_all_is_all _ _ _ Mix Hin) as ->. rewrite (tget_unique l CAll t w N Hin G). apply D.
-      * destruct c as [|v'].
-        -- destruct (D res) as (r & Hr). exists r. apply in_flat_map. exists (CAll, t). split; [exact Hin | exact Hr].
-        -- destruct (D (aset res k v')) as (r & Hr). exists r. apply in_flat_map. exists (CVal v', t). split; [exact Hin | exact Hr].
+        rewrite (tget_unique l (CVal v) t w N Hin G). destruct (D res) as (r & Hr). exists r. apply in_app_iff. now left.
+    + destruct c as [|v'].
+      * destruct (D res) as (r & Hr). exists r. apply in_flat_map. exists (CAll, t). split; [exact Hin | exact Hr].
+      * destruct (D (aset res k v')) as (r & Hr). exists r. apply in_flat_map. exists (CVal v', t). split; [exact Hin | exact Hr].
 Qed.
 
 (* ---------- insertion keeps the shape, adds the new path, keeps the old paths with another pattern ---------- *)
@@ -509,13 +503,13 @@ Proof.
   unfold ck_of. destruct (aget b k), (aget l k); reflexivity.
 Qed.
 
-(* On an index in which NO level holds both the wildcard and a concrete key, retrieval is COMPLETE: every stored entry compatible
-   with the lookup is returned.  (So the loss of entries - the known finding - needs a mixed level.) *)
-Theorem retrieve_complete_unmixed ks ops l b o : ks <> [] -> forallb (op_ok ks) ops = true ->
-  Unmixed (root (impl (state_after ks ops))) ->
+(* Retrieval is COMPLETE: after ANY well-formed history every stored entry compatible with the lookup is returned.  (At the pinned
+   commit this held only on indexes without a level holding both the wildcard and a concrete key - known finding
+   C20-wildcard-preference, repaired in /repo.) *)
+Theorem retrieve_complete ks ops l b o : ks <> [] -> forallb (op_ok ks) ops = true ->
   In (b, o) (spec (state_after ks ops)) -> compatible ks b l = true ->
   exists r, In (r, o) (ic_retrieve (impl (state_after ks ops)) l).
 Proof.
-  intros NE OK U Hb C. destruct (indexed_after ks ops NE OK) as (W & S & _ & P). unfold ic_retrieve. rewrite keys_state_after in *.
-  apply (retrieve_at_complete ks l _ l (pattern ks b) o W U S (P b o Hb)). now rewrite pcompat_strict_pattern.
+  intros NE OK Hb C. destruct (indexed_after ks ops NE OK) as (W & S & _ & P). unfold ic_retrieve. rewrite keys_state_after in *.
+  apply (retrieve_at_complete ks l _ l (pattern ks b) o W S (P b o Hb)). now rewrite pcompat_strict_pattern.
 Qed.
